@@ -135,6 +135,19 @@ class SampleWorld:
             hooks.update(role_hooks(ctx))
         except RoleLost:
             pass
+        # count how often each kernel role is reached on the modelled path (compared with the static call sites, see sites_modelled)
+        self.ncalls = {}
+
+        def counted(path, h):
+            def hook(I, c, a):
+                r = h(I, c, a)
+                if r is not NotImplemented:
+                    self.ncalls[path] = self.ncalls.get(path, 0) + 1
+                return r
+            return hook
+        for k in ("sector", "decompose", "quantile", "gauss", "lmatrix", "uvec", "vpoly"):
+            pth = roles[k].path
+            hooks[pth] = counted(pth, hooks[pth])
         I = Interp(self.f, models=hooks)
         self.I = I
         s = roles and ctx.roles.sample()
@@ -276,6 +289,21 @@ def need_world(ctx, rule):
     return w
 
 
+def sites_modelled(ctx, w, rule, keys):
+    """Every static call site of a kernel in `sample` lies on the path the engine summarised: a second site (retry, fallback,
+    alternative branch) whose result could reach the outputs is not covered by the formulas and is reported."""
+    s = ctx.roles.sample()
+    for k in keys:
+        body = w.roles[k]
+        static = [t for bi, t, cb in ctx.roles.local_callees(s) if cb is body]
+        seen = w.ncalls.get(body.path, 0)
+        ctx.ob(rule, "every call of the %s kernel in sample is on the summarised path (%d site(s), %d evaluated)" % (k, len(static), seen),
+               len(static) >= 1 and seen >= len(static), s.path, "kernel-sites:" + k,
+               where=pat.where(static[-1]) if static else None,
+               detail="%d call site(s) of %s in sample but %d on the success path that was summarised: the result of the other site(s) "
+                      "(a retry or fallback) can reach the returned values without satisfying the formula" % (len(static), body.path, seen))
+
+
 def scalar_of(v, what):
     if isinstance(v, Num):
         return v.expr
@@ -334,6 +362,7 @@ def run_c08(ctx):
         lm = md.payload.fields["l_matrix"]
         ctx.ob("C08-b", "Metadata.l_matrix is that matrix", scalar_of(lm.at("a", "b"), "l_matrix") == leaf("Lmat", "a", "b"), "sampling::sample",
                "metadata-l-matrix")
+        sites_modelled(ctx, w, "C08-b", ("sector", "lmatrix", "decompose"))
     guarded_clause(ctx, "C08-b", "sampling::sample", "u-wiring", b)
     ctx.rule("C08-c", "the determinant returned as u is (Π_i q[i,i])² of the factor defined by the Cholesky–Banachiewicz recurrence on that matrix")
     cholesky_clause(ctx, "C08-c")
@@ -364,6 +393,7 @@ def run_c09(ctx):
     w = need_world(ctx, "C09-a")
     if w is None:
         return
+    guarded_clause(ctx, "C09-b", "sampling::sample", "kernel-sites", lambda: sites_modelled(ctx, w, "C09-b", ("uvec", "vpoly", "decompose")))
 
     def a():
         fn = w.roles["uvec"].path
@@ -411,6 +441,7 @@ def run_c10(ctx):
     w = need_world(ctx, "C10-a")
     if w is None:
         return
+    guarded_clause(ctx, "C10-b", "sampling::sample", "kernel-sites", lambda: sites_modelled(ctx, w, "C10-b", ("quantile", "gauss", "decompose")))
 
     def a():
         fn = w.roles["momenta"].path
@@ -462,6 +493,7 @@ def run_c11_jacobian(ctx):
     w = need_world(ctx, "C11-a")
     if w is None:
         return
+    guarded_clause(ctx, "C11-a", "sampling::sample", "kernel-sites", lambda: sites_modelled(ctx, w, "C11-a", ("sector", "decompose", "vpoly")))
 
     def a():
         ut, vt, u, v, cached = (Expr.symbol(n) for n in ("ut", "vt", "u", "v", "cached"))
@@ -1962,7 +1994,7 @@ def run_c20b(ctx):
 
     def ctors():
         arr = Arr(("D",), lambda c: Num(Expr.leaf("a", c)), name="elems")
-        for name, arg in (("from_array", arr), ("from_slice", arr)):
+        for name, arg in (("from_array", arr), ("from_slice", arr), ("from_vec", arr)):
             b = vec_fn(name)
             ctx.fn(b.path)
             I = Interp(f)
